@@ -246,3 +246,18 @@ PROPS["C04"] = {
                  "per_config": {"g1_2_2_1": {"enum_draws": 5, "params": {"enum_depth": 5}}, "g1_4_1_1": {"enum_draws": 5, "params": {"enum_depth": 5}}},
                  "exhaustive_claim": True, "exhaustive_note": "all histories of 5 operations over the 26-operation alphabet on pool geometries (1,2,2,1) and (1,4,1,1)"},
 }
+
+GEOM_ROWS = list(GEOMS.keys())
+PROPS["C19"] = {
+    "title": "Capacity limits are clean edges and semantics do not depend on pool geometry",
+    "src": "c19.cpp",
+    "level": "exploration",
+    "technique": "cross-configuration model-based testing: the same model-generated histories (same seed) executed by one binary per (slot id size, pool capacity, inline pool count, string length size) row and compared with the tree model; limit-seeking scenarios generated from each row's constants (fill to the slot limit, strings at maxLen-1/maxLen/maxLen+1 through four routes, maximal reference counts), judged by clean-failure, intactness, inspector and reuse oracles",
+    "rule": "case = a C04 history (20-400 operations) executed under each of 12 geometry rows incl. non-power-of-two capacities and pool counts, or (1 in 50; 1 in 400 on 2-byte ids) a limit scenario: fill an array of ints / of 64-bit numbers / an object until insertion fails, check the exact limit position, overflowed(), intact content, remove k values and refill, clear and reuse; strings of maxLen-1, maxLen, maxLen+1 through set, key, JSON text and MessagePack; NULL_SLOT references to one copied string then removals. Non-trivial as in C04 for histories; every limit scenario is non-trivial; distinct by hash.",
+    "level_text": "Exploration: every row must agree with the geometry-independent model on every history (hence with every other row), and at a limit the operation must fail cleanly at exactly the documented position with the document intact, no identifier / length / reference count wrapping (inspector invariants), and the document usable again after removals and after clear().",
+    "level_note": "4-byte slot ids and 4-byte string lengths cannot be exhausted in this sandbox (64 GiB / 4 GiB): for those rows only the differential part applies (labelled in the evidence). Capacity 256 with 1-byte ids is not representable by the library and is left out.",
+    "quick": {"configs": GEOM_ROWS, "cases": 10000, "floor_evaluations": 100000, "floor_nontrivial": 10000, "regress_all_configs": True,
+              "require_labels": ["slot-limit-hit", "string-limit-hit", "refcount-limit-hit"]},
+    "thorough": {"configs": GEOM_ROWS, "cases": 300000, "floor_evaluations": 3000000},
+    "regress": ["slot_limit_after_shrink", "limits"],
+}
